@@ -172,7 +172,7 @@ def run_writepath(ck, prop, tier, g_small, g_sim, n_sim, crash_points, restart=T
 # the index update itself (C06 / C16 / C17): spec/IndexRace.tla
 
 IR_KEYS = {'KeySame': {'1': 'k', '2': 'k', '3': 'k'}, 'KeyMixed': {'1': 'k', '2': 'k', '3': 'j'}}
-IR_KINDS = {'C06': {'rest-view'}, 'C16': {'ack-not-shown'}, 'C17': {'rest-view', 'ack-not-shown', 'write-error'}}
+IR_KINDS = {'C01': {'convergence'}, 'C06': {'rest-view'}, 'C16': {'ack-not-shown'}, 'C17': {'rest-view', 'ack-not-shown', 'write-error'}}
 
 
 def ir_cfg(name, writers, keys, batch, atomic, invs='RestLWW StaysShown', props='AckShown', spec='Spec'):
@@ -319,6 +319,8 @@ DAGS = {
               jl={'1': [], '2': [1], '3': [1, 2], '4': [1, 2]}, jh={'1': [3], '2': [2, 4], '3': [3, 4]}, jbad=[]),
     'B': dict(hashes='{1,2,3,4,5}', links='LinksB', heads='HeadsB', local='{3,4}', bad='{2,5}', abort='{}', syncpass='{}',
               jl={'1': [], '2': [], '3': [1], '4': [1, 5], '5': []}, jh={'1': [2, 3], '2': [4, 3, 2], '3': [3, 4]}, jbad=[2, 5]),
+    'E': dict(hashes='{1,2,3,4,5}', links='LinksB', heads='HeadsB', local='{3,4}', bad='{2,5}', abort='{}', syncpass='{}',
+              jl={'1': [], '2': [], '3': [1], '4': [1, 5], '5': []}, jh={'1': [2, 3], '2': [4, 3, 2], '3': [3, 4]}, jbad=[2, 5]),
     'D': dict(hashes='{1,2,3,4,5,7}', links='LinksD', heads='HeadsD', local='{3,4,7}', bad='{2,5,7}', abort='{}', syncpass='{7}',
               jl={'1': [], '2': [], '3': [1], '4': [1, 5], '5': [], '7': []}, jh={'1': [7, 3], '2': [4, 7, 2], '3': [3, 4]}, jbad=[2, 5, 7]),
     'C': dict(hashes='{1,2,3,4,5}', links='LinksB', heads='HeadsC', local='{3,4}', bad='{2,5}', abort='{6}', syncpass='{}',
@@ -363,7 +365,7 @@ def run_replicator(ck, prop, tier, dag, cancels, n_sim, depth):
         for st in b['steps']:
             pass
         acts = [s['action'] for s in b['steps']]
-        if ('Cancel' in acts) or (dag in 'BCD' and 'JoinBatch' in acts):
+        if ('Cancel' in acts) or (dag in 'BCDE' and 'JoinBatch' in acts):
             ck.distinct.add(vlib.beh_signature(b))
     inp = {'property': prop, 'seed': SEED, 'dag': dag, 'req_heads': d['jh'], 'nreq': 3, 'bad': d['jbad'], 'abort': [6] if dag == 'C' else [], 'links': d['jl'],
            'behaviours': bs, 'mutant': mutants}
@@ -403,4 +405,6 @@ def c10(prop, tier):
     run_replicator(ck, prop, tier, 'C', 0, 120 if thorough else 20, 40)
     # ... and with a head written for another database by an authorised writer, which passes Sync and is refused at the join (DAG D)
     run_replicator(ck, prop, tier, 'D', 0, 120 if thorough else 14, 44)
+    # ... and the request tables of DAG B with the refused head 2 forged: it names the authorised writer of entries 1, 3, 4 as its author
+    run_replicator(ck, prop, tier, 'E', 0, 60 if thorough else 8, 40)
     return ck.finish()
